@@ -526,26 +526,6 @@ func (r *run) resync(t *rapid.T) {
 		// the RPC connection came back: the wallet is told so and synchronises again
 		s.F.Connect()
 	case "rescan":
-		// a second rescan job may be handed in while the first is in flight (as an
-		// address import does); the backend may refuse that second request. The
-		// first rescan is a complete resynchronisation either way.
-		if rapid.Bool().Draw(t, "jobQueuedBehindRescan") {
-			refuse := rapid.Bool().Draw(t, "backendRefusesQueuedRescan")
-			addr := s.Book.List[rapid.IntRange(0, len(s.Book.List)-1).Draw(t, "queuedJobAddr")].Addr
-			w, cl := s.F.W, s.F.Client
-			cl.DuringRescan = func() {
-				w.SubmitRescan(&wallet.RescanJob{Addrs: []btcutil.Address{addr}, BlockStamp: w.Manager.SyncedTo()})
-				if refuse {
-					cl.FailNext("Rescan")
-				}
-			}
-			r.rescanRefused = refuse
-			defer cl.ClearFail("Rescan")
-			s.C.Class("rescan-job-queued-behind-resync")
-			if refuse {
-				s.C.Class("queued-rescan-refused-by-backend")
-			}
-		}
 		if err := s.F.W.Rescan(nil, nil); err != nil {
 			s.F.Violation("Wallet.Rescan failed: %v", err)
 		}
